@@ -13,5 +13,8 @@ func splitContainsPath(p string) (dirNodePath []string, nodeName string, err err
 	}
 	dirNodePath = nodePath[:len(nodePath)-1]
 	nodeName = nodePath[len(nodePath)-1]
+	if nodeName == "" || nodeName == "." {
+		return nil, "", goaterr.Errorf("Path %s points to a directory itself, node name expected", p)
+	}
 	return dirNodePath, nodeName, nil
 }
